@@ -179,6 +179,8 @@ def build(run):
     separator_lemma(run)
     crate12, lemma12 = presentation_lemma(run)
     run.kani(crate12, [lemma12], timeout=600)
+    crate13, lemma13 = mhchem_lemma(run)
+    run.kani(crate13, [lemma13], timeout=600)
     crate8, lemma8 = marker_lemma(run)
     run.kani(crate8, [lemma8], timeout=600)
     crate7, lemma7 = attach_lemma(run)
@@ -445,6 +447,67 @@ def presentation_lemma(run):
     return crate, dict(id="K-C08-o.presentation_element_total", harness="presentation_element_is_total", api=lambda v, o: api_presentation(),
                        role=lambda v, o: "presentation-annotation-shape-panics", covers=["MathML-Presentation annotation with two children reachable", "<annotation encoding='MathML-Presentation'> holding text reachable"],
                        claim="get_presentation_element returns a child of <semantics> for every annotation shape: no assert / as_element panic")
+
+
+# ======================================================================================================================
+# K-C08-p: is_from_mhchem_hack (asked for every single-child mrow / mpadded under a script element) never indexes an empty child list
+MH_SHIM = r"""
+use core::marker::PhantomData;
+#[derive(Clone, Copy, PartialEq, Debug)] pub struct Element<'a> { id: u8, p: PhantomData<&'a ()> }
+#[derive(Clone, Copy, PartialEq, Debug)] pub struct ChildOfElement<'a>(Element<'a>);
+pub struct Kids<'a> { k: [ChildOfElement<'a>; 2], n: usize }
+impl<'a> core::ops::Deref for Kids<'a> { type Target = [ChildOfElement<'a>]; fn deref(&self) -> &[ChildOfElement<'a>] { &self.k[..self.n] } }
+/// a chain 0 (script element) > 1 (the element asked about) > 2 > 3 > 4 > 5; node c has NAME[c] in {mrow, mpadded, mphantom, mi, msub} and NCH[c] in 0..2 children
+/// (the first child is the next node of the chain, a second child is a plain <mi>)
+const NAMES: [&str; 5] = ["mrow", "mpadded", "mphantom", "mi", "msub"];
+static mut NAME: [u8; 8] = [0; 8];
+static mut NCH: [u8; 8] = [0; 8];
+static mut WIDTH: u8 = 0;
+fn el<'a>(id: u8) -> Element<'a> { Element { id, p: PhantomData } }
+impl<'a> Element<'a> {
+    pub fn children(&self) -> Kids<'a> { let n = if self.id <= 5 { (unsafe { NCH[self.id as usize] }) as usize } else { 0 }; Kids { k: [ChildOfElement(el(if self.id < 5 { self.id + 1 } else { 7 })), ChildOfElement(el(7))], n } }
+    pub fn attribute_value(&self, _n: &str) -> Option<&'static str> { match unsafe { WIDTH } { 0 => None, 1 => Some("0"), _ => Some("1em") } }
+}
+fn name<'a>(e: &Element<'a>) -> &'static str { NAMES[if e.id <= 5 { (unsafe { NAME[e.id as usize] }) as usize } else { 3 }] }
+fn as_element<'a>(c: ChildOfElement<'a>) -> Element<'a> { c.0 }
+fn as_text<'a>(e: Element<'a>) -> &'static str { assert!(unsafe { NAME[e.id as usize] } == 3 || e.id > 5, "as_text of a non-leaf"); "A" }
+fn get_parent<'a>(e: Element<'a>) -> Element<'a> { assert!(e.id > 0, "no parent"); el(e.id - 1) }
+"""
+
+MH_HARNESS = r"""
+HARNESS(mhchem_hack_test_is_total, 10) {
+    unsafe {
+        NAME[0] = 4;                                         // the parent is a script element (otherwise the function answers at once)
+        let mut c = 1;
+        while c <= 5 { NAME[c] = sym::below(4) as u8; NCH[c] = sym::below(3) as u8; c += 1; }
+        WIDTH = sym::below(3) as u8;
+        // documented precondition (the two asserts at the top; every caller checks them): an mrow or mpadded with exactly one child
+        sym::assume((NAME[1] == 0 || NAME[1] == 1) && NCH[1] == 1);
+        // leaves have no element children
+        let mut c = 1; while c <= 5 { sym::assume(NAME[c] != 3 || NCH[c] == 0); c += 1; }
+    }
+    let r = is_from_mhchem_hack(el(1));
+    cover!(r, "mhchem shape recognised");
+    cover!(unsafe { NAME[1] == 0 && NAME[2] == 0 && NAME[3] == 1 && NCH[3] == 0 && WIDTH == 1 }, "mrow > mrow > empty mpadded of width 0 reachable");
+}
+"""
+
+
+def api_mhchem(vals=None, out=None):
+    res = mcprobe([("mathml", "<math><msub><mrow><mrow><mpadded width='0'/></mrow></mrow><mn>1</mn></msub></math>"), ("mathml", "<math><mi>z</mi></math>")])
+    return any(r[0] in ("PANIC", "ABORT") for r in res), {"script": "set_mathml(<msub><mrow><mrow><mpadded width='0'/></mrow></mrow><mn>1</mn></msub>): a result or an error, not a panic", "results": [(r[0], str(r[1])[:160]) for r in res]}
+
+
+def mhchem_lemma(run):
+    c = slicer.Source.get("src/canonicalize.rs")
+    f = c.find("fn clean_mathml", "fn is_from_mhchem_hack")
+    run.uses(f)
+    crate = kani_run.Crate("c08mh", MH_SHIM + f.text.replace("fn is_from_mhchem_hack(mathml: Element) -> bool", "fn is_from_mhchem_hack<'a>(mathml: Element<'a>) -> bool") + MH_HARNESS)
+    run.bound("K-C08-p", "is_from_mhchem_hack verbatim on a chain of five nested elements under a script element, each an mrow / mpadded / mphantom / mi with 0..2 children, width attribute absent / '0' / other; precondition: the element asked about is an mrow or mpadded with one child")
+    run.assume("K-C08-p: sxd_document elements reduced to (name, number of children); as_text answers 'A'")
+    return crate, dict(id="K-C08-p.mhchem_hack_test_total", harness="mhchem_hack_test_is_total", api=lambda v, o: api_mhchem(),
+                       role=lambda v, o: "empty-mpadded-indexed", covers=["mhchem shape recognised", "mrow > mrow > empty mpadded of width 0 reachable"],
+                       claim="is_from_mhchem_hack answers for every nesting within the bound: no index into an empty child list")
 
 
 # ======================================================================================================================
